@@ -806,8 +806,12 @@ func c05eJudge(c *c05eCase, ref, h *c05eOutcome) *c05eVerdict {
 					}
 				}
 				when := "after-repeated-abort-interrupts"
-				if aborts <= 1 {
+				if aborts == 1 {
 					when = "after-1-abort-interrupt"
+				} else if aborts == 0 {
+					// no call of the history reported a rerun node / an interrupted nested graph: the node was
+					// lost by a plain interrupt (an interrupt-before / interrupt-after point, drained siblings)
+					when = "after-plain-interrupts-only"
 				}
 				return &c05eVerdict{"C05:eager:node-lost:" + shape + ":" + when, "node " + k + " executes in the uninterrupted run but never in the resumed history (which ends: " + res + "): its pending input / the output of a predecessor was not carried over an interrupt"}
 			}
@@ -1252,6 +1256,9 @@ func c05eOne(ctx *vh.Ctx, c *c05eCase, shrink bool) error {
 	if c05eReadyDuringDrain(c, h) {
 		ctx.Res.Dist("eager-shape=before-node-ready-during-drain")
 	}
+	if c05ePlainReadyDuringDrain(c, h) {
+		ctx.Res.Dist("eager-shape=plain-node-ready-during-drain")
+	}
 	q := *c
 	ctx.Res.Count("eager:"+vh.Canon(&q), len(h.Calls) >= 2 && len(w.Nodes) >= 2)
 	ctx.Res.Sample(&q)
@@ -1370,6 +1377,72 @@ func c05eReadyDuringDrain(c *c05eCase, h *c05eOutcome) bool {
 		}
 		for _, x := range cl.Before {
 			if lp, lpos := lastPred(x); lp != "" && inCall[lp] && first > 0 && lpos > first {
+				return true
+			}
+		}
+	}
+	return false
+}
+
+// c05ePlainReadyDuringDrain: in some interrupted call a node Z that is NOT an interrupt-before node
+// became ready while the run was draining its tasks: its last predecessor ran in that call and was
+// collected after a node of that call that already was an interrupt point (an interrupt-after node,
+// or the last predecessor of a reported interrupt-before node). Z is a pending task of that
+// checkpoint although none of the interrupt's lists names it.
+func c05ePlainReadyDuringDrain(c *c05eCase, h *c05eOutcome) bool {
+	w := c.W
+	pos := map[string]int{}
+	for i, k := range h.Yields {
+		pos[k] = i + 1
+	}
+	lastPred := func(x string) (string, int, bool) {
+		best, bp, all := "", 0, true
+		for _, p := range w.ready(x) {
+			if p == "start" {
+				continue
+			}
+			if pos[p] == 0 {
+				all = false
+			}
+			if pos[p] > bp {
+				best, bp = p, pos[p]
+			}
+		}
+		return best, bp, all
+	}
+	for _, cl := range h.Calls {
+		if cl.Res != "interrupted" || len(cl.Rerun)+len(cl.Subs) > 0 {
+			continue
+		}
+		inCall := map[string]bool{}
+		for _, st := range cl.Starts {
+			if !strings.HasPrefix(st, "!") {
+				inCall[strings.SplitN(st, "/", 2)[0]] = true
+			}
+		}
+		first := 0
+		for k := range inCall {
+			if pos[k] == 0 {
+				continue
+			}
+			point := c05eHas(cl.After, k)
+			for _, x := range cl.Before {
+				if lp, _, _ := lastPred(x); lp == k {
+					point = true
+				}
+			}
+			if point && (first == 0 || pos[k] < first) {
+				first = pos[k]
+			}
+		}
+		if first == 0 {
+			continue
+		}
+		for _, nd := range w.Nodes {
+			if c05eHas(w.IntBefore, nd.Key) || inCall[nd.Key] {
+				continue
+			}
+			if lp, lpos, all := lastPred(nd.Key); lp != "" && all && inCall[lp] && lpos > first {
 				return true
 			}
 		}
@@ -1513,7 +1586,40 @@ func c05eGen(r *vh.Rand) *c05eCase {
 		}
 	}
 	c05eSanitize(w)
-	if r.Chance(25) {
+	shapeDraw := r.Intn(100)
+	if shapeDraw >= 25 && shapeDraw < 40 {
+		// shape: an interrupt-after node a is collected while its sibling b is still in flight (b waits
+		// for a); b's completion, processed while the run drains its tasks, readies a successor x of b
+		// that is NOT an interrupt point: x is a pending task of the checkpoint although no list of the
+		// interrupt names it
+		for _, i := range r.Perm(len(w.Nodes)) {
+			b := w.Nodes[i]
+			if len(b.Wait) == 0 {
+				continue
+			}
+			x := ""
+			for _, d := range w.Deps {
+				if d.From == b.Key && d.To != "end" && d.Kind != "data" && (x == "" || len(w.ready(d.To)) == 1) {
+					x = d.To
+				}
+			}
+			if x == "" {
+				continue
+			}
+			if !c05eHas(w.IntAfter, b.Wait[0]) {
+				w.IntAfter = append(w.IntAfter, b.Wait[0])
+			}
+			var keep []string
+			for _, k := range w.IntBefore {
+				if k != x {
+					keep = append(keep, k)
+				}
+			}
+			w.IntBefore = keep
+			break
+		}
+	}
+	if shapeDraw < 25 {
 		// shape: an interrupt point is hit (a is an interrupt-after node) while its sibling b is
 		// still in flight (b waits for a), and a successor of b is an interrupt-before node: it
 		// becomes ready while the run drains its tasks
@@ -1555,6 +1661,9 @@ func c05eReplay(ctx *vh.Ctx, raw json.RawMessage) error {
 }
 
 func runEagerFamily(ctx *vh.Ctx) error {
+	if !c05FamilyOn("eager") {
+		return nil
+	}
 	ctx.Res.Rule += " | eager workflows (kind=eager): random compose.Workflow, 2-6 nodes (tag / InterruptAndRerun once or twice / nested pregel chain or inner workflow that interrupts inside), control, data and combined dependencies, half of the nodes true siblings of an earlier node, interrupt-before/after subsets, enforced completion orders of siblings in flight together (barriers) plus free-running histories; Invoke(WithCheckPointID) on a bytes-only store until completion, compared with the uninterrupted run of the same workflow (final output, multiset of node executions with inputs) and, for the uninterrupted run, with the Lean engine model's eager loop; non-trivial = at least one interrupt"
 	n := ctx.N(4000, 40000)
 	limit := time.Duration(ctx.N(9, 90)) * time.Second
